@@ -83,3 +83,20 @@ func VerifTakeSplitDiscards() []VerifSplitDiscardEvent {
 	verifSplits = nil
 	return out
 }
+
+// VerifScratch reports the per-execution scratch state of an engine between
+// calls: lengths of scanlineList, intersectList, outrecList, horzSegList,
+// horzJoinList, whether the active-edge list is empty, and the sticky flags.
+type VerifScratchState struct {
+	Scan, Intersect, Outrec, HorzSeg, HorzJoin int
+	ActivesEmpty, UsingPolyTree, HasOpenPaths  bool
+	SortedMinima, Succeeded                    bool
+}
+
+func (c *clipperBase) verifScratch() VerifScratchState {
+	return VerifScratchState{len(c.scanlineList), len(c.intersectList), len(c.outrecList), len(c.horzSegList), len(c.horzJoinList),
+		c.actives == nil, c.usingPolyTree, c.hasOpenPaths, c.isSortedMinimaList, c.succeeded}
+}
+
+func (c *clipper64) VerifScratch() VerifScratchState { return c.clipperBase.verifScratch() }
+func (c *clipperD) VerifScratch() VerifScratchState  { return c.clipperBase.verifScratch() }
